@@ -28,6 +28,8 @@ type World struct {
 	stats   *Stats
 	mode    string
 	sent    []*ledger.Transaction
+	// signatures the host has verified (admitted transactions), by public key
+	goodSigs map[string][][2]string // (signature, reference)
 }
 
 func pickSettings(r *Rng) *Settings {
@@ -161,6 +163,7 @@ type txPlan struct {
 	outs    []*JOutput
 	ts      int64
 	tamper  string
+	replay  string // tamper "replay-sig": a signature the same key made for another reference
 }
 
 func (w *World) build(p *txPlan) *ledger.Transaction {
@@ -196,6 +199,11 @@ func (w *World) build(p *txPlan) *ledger.Transaction {
 	case "sig-rbig":
 		if len(jt.Inputs) > 0 {
 			jt.Inputs[0].Signature = "ffffffffffffffffffffffffffffffffffffffffffffffffffffffffffffffff" + jt.Inputs[0].Signature[64:]
+		}
+	case "replay-sig":
+		// a genuine signature of the same key over another output reference (public chain data)
+		if len(jt.Inputs) > 0 && p.replay != "" {
+			jt.Inputs[0].Signature = p.replay
 		}
 	case "ref":
 		// signature made for another reference
@@ -288,7 +296,13 @@ func (w *World) genTx(n *Node) (*ledger.Transaction, string) {
 	kind := "valid"
 	if w.mode != "honest" && r.Chance(1, 3) {
 		kind = []string{"low-fee", "neg-fee", "overflow", "wrong-key", "sig-s", "sig-r0", "sig-s0", "sig-rbig", "ref", "bad-index",
-			"future", "old", "two-yield", "dup-input", "exact-fee", "upper", "zero-out", "max-out", "wrong-key-late", "wrong-key-late"}[r.Intn(20)]
+			"future", "old", "two-yield", "dup-input", "exact-fee", "upper", "zero-out", "max-out", "wrong-key-late", "wrong-key-late", "replay-sig", "replay-sig"}[r.Intn(22)]
+		if kind == "replay-sig" && len(w.goodSigs[first.owner.PubHex]) == 0 {
+			kind = "ref"
+		}
+		if kind != "replay-sig" && len(w.goodSigs[first.owner.PubHex]) > 0 && r.Chance(1, 4) {
+			kind = "replay-sig"
+		}
 		if kind == "wrong-key-late" {
 			// needs at least two inputs of one owner: the owner's own input first, a foreign key later
 			for _, s := range pool {
@@ -367,6 +381,19 @@ func (w *World) genTx(n *Node) (*ledger.Transaction, string) {
 		p.signers[len(ins)-1] = other
 	case "sig-s", "sig-r0", "sig-s0", "sig-rbig", "ref", "upper":
 		p.tamper = kind
+	case "replay-sig":
+		p.tamper = kind
+		var l []string
+		for _, sr := range w.goodSigs[first.owner.PubHex] {
+			if sr[1] != fmt.Sprintf("%s/%d", p.ins[0].txid, p.ins[0].idx) {
+				l = append(l, sr[0])
+			}
+		}
+		if len(l) > 0 {
+			p.replay = l[r.Intn(len(l))]
+		} else {
+			p.tamper = "ref"
+		}
 	case "bad-index":
 		p.ins[0].idx += 7
 	case "future":
@@ -583,6 +610,9 @@ func (w *World) run(steps int) {
 			res := w.rec.Admit(tx)
 			w.stats.Count("admit/" + kind + "=" + res)
 			w.sent = append(w.sent, tx)
+			if res == "ok" {
+				w.noteGoodSigs(tx)
+			}
 			for _, h := range w.helpers {
 				if r.Chance(2, 3) {
 					h.Pool.AddTransaction(tx, "x", "y")
@@ -925,4 +955,22 @@ func (w *World) swapStep() {
 	}
 	w.stats.Count("admit/yield-swap=unavailable")
 	w.hostTick()
+}
+
+// noteGoodSigs: the signatures of an admitted transaction (the node has verified them), per key
+func (w *World) noteGoodSigs(tx *ledger.Transaction) {
+	bs, err := json.Marshal(tx)
+	if err != nil {
+		return
+	}
+	var jt JTx
+	if json.Unmarshal(bs, &jt) != nil {
+		return
+	}
+	if w.goodSigs == nil {
+		w.goodSigs = map[string][][2]string{}
+	}
+	for _, in := range jt.Inputs {
+		w.goodSigs[in.PublicKey] = append(w.goodSigs[in.PublicKey], [2]string{in.Signature, fmt.Sprintf("%s/%d", in.TransactionId, in.OutputIndex)})
+	}
 }
